@@ -999,6 +999,14 @@ func checkModel(v any, want []byte, wantOK bool, esc bool) {
 	}
 }
 
+type vfFailWriter struct{ n int }
+
+type vfWriteError struct{}
+
+func (vfWriteError) Error() string { return "write failed" }
+
+func (w *vfFailWriter) Write(p []byte) (int, error) { w.n++; return 0, vfWriteError{} }
+
 type vfSinkBuf struct{ b []byte }
 
 func (s *vfSinkBuf) Write(p []byte) (int, error) { s.b = append(s.b, p...); return len(p), nil }
@@ -1020,6 +1028,26 @@ func vfH_c01_shape() {
 	case 1:
 		vfAssume(esc)
 		got, err = Append(nil, v, EscapeHTML|SortMapKeys)
+	case 3:
+		// a writer that fails: Encode reports the write error (as encoding/json does), at once and on every later call
+		if !wantOK {
+			return
+		}
+		fw := &vfFailWriter{}
+		e := NewEncoder(fw)
+		e.SetEscapeHTML(esc)
+		err1 := e.Encode(v)
+		vfAssert(err1 != nil, "Encode-reports-the-write-error")
+		err2 := e.Encode(v)
+		vfAssert(err2 != nil, "Encode-keeps-reporting-the-write-error")
+		if vfNative() {
+			se := stdjson.NewEncoder(&vfFailWriter{})
+			if se.Encode(v) == nil {
+				vfModelBug("encoding/json.Encoder does not report write errors")
+			}
+		}
+		vfCover("done")
+		return
 	default:
 		var sb vfSinkBuf
 		e := NewEncoder(&sb)
